@@ -218,6 +218,37 @@ type c15Case struct {
 	// nested run: an outer sandbox whose policy answers errno to seccomp(2) starts the sandbox under test, for which the
 	// kernel then refuses the filter
 	OuterDeniesSeccomp bool `json:"outer_denies_seccomp,omitempty"`
+	// files too large to be kept in a replay artefact are described by how they are generated
+	GenKind  string `json:"generated_kind,omitempty"` // large-file | long-group | oversize
+	GenParam int    `json:"generated_param,omitempty"`
+}
+
+// c15Generate builds the content of a generated policy file.
+func c15Generate(kind string, param int) string {
+	var b strings.Builder
+	switch kind {
+	case "oversize":
+		b.WriteString("seccomp:\n  default_action: allow\n  syscalls:\n  - action: errno\n    names_with_args:\n")
+		for i := 0; i < 1100; i++ {
+			fmt.Fprintf(&b, "    - name: getppid\n      arguments:\n      - argument: 0\n        operation: Equal\n        value: %d\n", 1000+i)
+		}
+	case "long-group":
+		b.WriteString("seccomp:\n  default_action: allow\n  syscalls:\n  - action: errno\n    names_with_args:\n")
+		for i := 0; i < param; i++ {
+			fmt.Fprintf(&b, "    - name: getppid\n      arguments:\n      - argument: 0\n        operation: Equal\n        value: %d\n", 1000+i)
+		}
+		b.WriteString("  - action: errno\n    names:\n    - getuid\n    - getppid\n")
+	case "large-file":
+		b.WriteString("seccomp:\n  default_action: allow\n  syscalls:\n  - action: errno\n    names:\n    - getppid\n")
+		for b.Len()+64 <= param {
+			b.WriteString("# " + strings.Repeat("-", 61) + "\n")
+		}
+		if rest := param - b.Len(); rest >= 2 {
+			b.WriteString("#" + strings.Repeat("-", rest-2) + "\n")
+		}
+		b.WriteString("  - action: errno\n    names:\n    - getuid\n    - getgid\n")
+	}
+	return b.String()
 }
 
 func checkC15(tier, replay string) int {
@@ -248,6 +279,9 @@ func checkC15(tier, replay string) int {
 		if err := readJSON(replay, &f); err != nil {
 			fmt.Println(err)
 			return 2
+		}
+		if f.Case.GenKind != "" {
+			f.Case.File = c15Generate(f.Case.GenKind, f.Case.GenParam)
 		}
 		cases = []c15Case{f.Case}
 	} else {
@@ -321,12 +355,16 @@ func checkC15(tier, replay string) int {
 			}
 		}
 		// kernel refusal: > 4096 instructions
-		var big strings.Builder
-		big.WriteString("seccomp:\n  default_action: allow\n  syscalls:\n  - action: errno\n    names_with_args:\n")
-		for i := 0; i < 1100; i++ {
-			fmt.Fprintf(&big, "    - name: getppid\n      arguments:\n      - argument: 0\n        operation: Equal\n        value: %d\n", 1000+i)
+		cases = append(cases, c15Case{Label: "oversize/kernel-EINVAL", File: c15Generate("oversize", 0), FileKind: "content", GenKind: "oversize"})
+		// a first group whose conditional entries compile to more than 255 instructions (long jumps inside it), then a second group
+		cases = append(cases, c15Case{Label: "long-conditional-group-then-group/whole", File: c15Generate("long-group", 70), FileKind: "content", GenKind: "long-group", GenParam: 70})
+		// large files: a comment block pushes the last group to start exactly at byte offset L (and one byte before / after it):
+		// a reader that stops at a size limit on a line boundary would still see a well-formed, but different, policy
+		for _, L := range []int{4096, 8192, 16384, 32768, 65536, 131072, 1 << 20} {
+			for _, d := range []int{0, -1, 1} {
+				cases = append(cases, c15Case{Label: fmt.Sprintf("large-file/last-group-at-%d", L+d), File: c15Generate("large-file", L+d), FileKind: "content", GenKind: "large-file", GenParam: L + d})
+			}
 		}
-		cases = append(cases, c15Case{Label: "oversize/kernel-EINVAL", File: big.String(), FileKind: "content"})
 		// JSON renderings (JSON is YAML) with operands that need all 64 bits
 		for oi, v := range []uint64{1<<53 + 1, 1<<63 - 1, 1<<64 - 1, 1 << 63, 0x0102030405060708} {
 			for _, op := range []seccomp.Operation{seccomp.Equal, seccomp.GreaterThan, seccomp.BitsSet} {
@@ -429,7 +467,9 @@ func checkC15(tier, replay string) int {
 			atomic.AddInt64(&ranTarget, 1)
 		}
 		rep := c
-		if len(rep.File) > 3000 {
+		if rep.GenKind != "" {
+			rep.File = "" // regenerated on replay
+		} else if len(rep.File) > 3000 {
 			rep.File = rep.File[:3000] + "..."
 		}
 		switch {
@@ -500,7 +540,7 @@ func checkC15(tier, replay string) int {
 	ctx.Cov["runs_in_which_the_target_started"] = ranTarget
 	ctx.Cov["runs_that_must_be_refused"] = refused
 	ctx.Cov["probe_events_observed_by_the_target"] = probes
-	ctx.Cov["rule"] = "the built cmd/sandbox binary is run with a probe target (a separate program that first appends a marker line, then issues probe syscalls for every partition cell of the policy) on: 10 base policy files (one spelling all eight operations and the actions in non-canonical letter case, one whose first group ends with a conditional entry for a syscall the second group names unconditionally) (incl. two under which execve is not allowed: no target can be started) whole (root / uid 65534 / with -no-new-privs=false / non-existent target / nested inside an outer sandbox whose policy answers errno to seccomp(2), so that the kernel refuses the filter), every line prefix and every byte prefix inside the first and last rule (thorough: every byte prefix), 13 defect kinds per base plus an unknown name at every position where a syscall name stands, JSON renderings with operands that need all 64 bits (unknown action/default/syscall/operation, wrong key, no syscalls, non-YAML, tab indentation, empty, argument 6 / -1, non-numeric value, duplicate name), a policy compiling to > 4096 instructions, a missing file and a directory; the same bytes are loaded by the harness through ucfg: if that fails, the policy is invalid or the kernel must refuse, the run must exit non-zero with no marker; otherwise the marker exists and the target's observations equal the reference decisions of the policy the file denotes"
+	ctx.Cov["rule"] = "the built cmd/sandbox binary is run with a probe target (a separate program that first appends a marker line, then issues probe syscalls for every partition cell of the policy) on: 10 base policy files (one spelling all eight operations and the actions in non-canonical letter case, one whose first group ends with a conditional entry for a syscall the second group names unconditionally) (incl. two under which execve is not allowed: no target can be started) whole (root / uid 65534 / with -no-new-privs=false / non-existent target / nested inside an outer sandbox whose policy answers errno to seccomp(2), so that the kernel refuses the filter), every line prefix and every byte prefix inside the first and last rule (thorough: every byte prefix), 13 defect kinds per base plus an unknown name at every position where a syscall name stands, JSON renderings with operands that need all 64 bits (unknown action/default/syscall/operation, wrong key, no syscalls, non-YAML, tab indentation, empty, argument 6 / -1, non-numeric value, duplicate name), a policy compiling to > 4096 instructions, a policy whose first group needs long jumps (70 conditional entries) followed by a second group, files of 4 KiB to 1 MiB in which a comment block pushes the last group to byte offset L-1, L, L+1 for L in {4096, ..., 65536, 131072, 1 MiB}, a missing file and a directory; the same bytes are loaded by the harness through ucfg: if that fails, the policy is invalid or the kernel must refuse, the run must exit non-zero with no marker; otherwise the marker exists and the target's observations equal the reference decisions of the policy the file denotes"
 	ctx.Assumptions = []string{"a truncated file that still parses is a different valid policy and is judged as such", "probe syscalls ignore arguments", "fault points before exec are realised through inputs (file defects, kernel refusals), not by interrupting the sandbox process"}
 	if replay != "" {
 		return finishReplay(ctx)
